@@ -727,7 +727,7 @@ def c18(ctx):
     n = 3000 if ctx.quick() else 60000
     sv(binary, ["rt", "--family", "xml", "--n", n, "--seed", ctx.seed, "--out", tr], ctx=ctx, timeout=6000)
     trace = rt_validate(ctx, tr, "xml")
-    ctx.samples += [{"config": [e["fmt"], e["indent"]], "in": show_quads(e["in"]), "document": uncps(e["text"])[:600]} for e in trace[40:900:400] if e["ev"] == "RT"]
+    ctx.samples += [{"config": [e["fmt"], "indentation 4"], "in": show_quads(e["in"]), "document": uncps(e["outs"][4]["text"])[:600]} for e in trace[40:900:400] if e["ev"] == "RT"]
     ctx.rule = ("Trace_RoundTrip.tla: for every (graph, indentation 0..8) serialisation either fails with an error value or yields a document whose parse is isomorphic to the RDF/XML-expressible part of the graph "
                 "(XmlExpressible: predicate IRI splits into namespace + NCName); for graphs with QName-able predicates and XML-legal text (XmlChar) it must succeed; outputs for every indentation must agree. %d random graphs: "
                 "literals over markup characters, whitespace runs, leading/trailing newlines, non-BMP, language tags, arbitrary datatypes incl. rdf:XMLLiteral, blank subjects/objects, namespace split points; "
